@@ -23,6 +23,9 @@ func c17(c *Check) {
 	c.Rule("C17/burn-redirect", "frozen table: OverwriteBankKeeper.BurnCoins is a single transfer to the fee collector", 1)
 	n := c.Frozen("C17")
 	c.Extra["frozen_entries"] = n
+	c.Rule("C17/every-log", "both adapters reach a successful end only after the loop over the receipt's logs: every staking / governance event of a transaction is executed, not only the first", 2)
+	allLogsProcessed(c, "C17/every-log", "adapter/staking.HookAdapter.PostTxProcessing")
+	allLogsProcessed(c, "C17/every-log", "adapter/gov.HookAdapter.PostTxProcessing")
 
 	c.Rule("C17/registration", "each adapter's contract address is the matching syscontracts constant; every event name of the switch is registered to the handler that parses exactly that event name; unknown event names panic at construction; one ExecuteMsg per handler", 16)
 	for _, ad := range []struct{ pkg, field, addrConst string }{
